@@ -13,15 +13,13 @@
    (s3_tcols_tables_ok); it is a value predicate, kept by all four rewrites. *)
 From Coq Require Import List NArith Arith Bool Lia Strings.String.
 From V Require Import Base.Bytes Base.Res Gen.Nodes Model.Ast Model.Inlines Model.Footnotes Model.Parse
-  Spec.Shape Spec.HtmlSpec Spec.Valid
+  Spec.Shape Spec.HtmlSpec Spec.Valid Spec.ParseValidSpec
   Proofs.InlinesProofs Proofs.FootnoteProofs Proofs.ValidProofs Proofs.ParserShapeInl Proofs.ParserShapeFn Proofs.ParserShapeAttach
   Proofs.ParserShapeCompose Proofs.ParseProofs Proofs.ParseValidInl.
 Import ListNotations.
 Local Open Scope list_scope.
 
 (* ================================================================== 0. definitions *)
-Definition is_cell_v (v : node_value) : bool := match v with TableCell => true | _ => false end.
-
 Fixpoint gv (n : node) : bool :=
   match n with
   | Node v _ ch =>
